@@ -83,7 +83,12 @@ func planC01(tier string, seed int64) (*Plan, error) {
 			p.Jobs = append(p.Jobs, job("H_c01_convert", "cfg", c, "n", n))
 		}
 	}
-	p.Bounds = map[string]interface{}{"S(L)": "every byte string of length 0..2 over all 256 byte values", "configurations": cfgs}
+	s3 := []string{cfg("core", "", ""), cfg("cjk", "", ""), cfg(allExt, "autoid,attr", "")}
+	for _, c := range s3 {
+		p.Jobs = append(p.Jobs, job("H_c01_convert", "cfg", c, "n", 3))
+	}
+	p.Bounds = map[string]interface{}{"S(L)": "every byte string of length 0..2 over all 256 byte values", "configurations": cfgs,
+		"S(3)": "every byte string of length 3, configurations " + fmt.Sprint(s3)}
 	p.Rule = "one job per (configuration, length); paths enumerated exhaustively by decision-prefix re-execution"
 	return p, nil
 }
